@@ -29,7 +29,9 @@ EXPLANATION = (
     " (R15) an S3 operation answers with what the store said: exists() -> True exactly after a successful HEAD, read-type results derive from the response, seek dispatch by scenario. R2: the re-raise sits on the non-404 side; R3: the retry layer returns the operation's result; R6: strict `pos >= size` guard; R11 is interprocedural; R1 tolerates trailing optional parameters."
     ' R2 reads table-driven error classification and exception factories.'
     " R9 also lists a key whose table prefix recurs inside the key (prefix 'data', key 'data/data/x.parquet')."
-    ' R8: list_files hands back a materialised list, never a generator object; sibling appends in an if / else count as one. R6 finds the range function by role and understands the (offset, length) form. R15: a boto response is never None.')
+    ' R8: list_files hands back a materialised list, never a generator object; sibling appends in an if / else count as one. R6 finds the range function by role and understands the (offset, length) form. R15: a boto response is never None.'
+    " R3 decides the permanent-error classifier by scenario when the evaluator can follow it: is_permanent_s3_error is walked with 27 scripted botocore-style responses (code, HTTP status) - throttling, timeouts, aborted operations, 5xx and 404 must stay retryable, credential / permission / bucket errors permanent; the retry loop's attempt schedule may be a zip of the attempt range with an endless delay generator. R8 counts a closure handed to the retry layer as performing the request on that arm. R14 accepts a captured list that is emptied at the top of every attempt and a captured counter that is only ever incremented."
+)
 NOT_DECIDED = "operation-sequence equivalence of the two backends at run time; S3's own consistency"
 
 SB = "storage_backend"
